@@ -66,3 +66,13 @@ Example C05_ex_nul : iface_unmarshal (fun _ => true) [49; 0; 50] = CErr.
 Proof. vm_compute. reflexivity. Qed.
 Example C05_ex_null_key : iface_unmarshal (fun _ => true) [123; 110; 117; 108; 108; 58; 49; 125] = CErr.
 Proof. vm_compute. reflexivity. Qed.
+
+(* ---- the number recogniser of the source, translated on every run (Base/ScanProg.v, Gen/ScanProgs.v) ---- *)
+From GJ Require Import Base.ScanProg Gen.ScanProgs Model.Compact Proofs.ScanProgP Proofs.CompactLeafP.
+(* number texts are accepted by the decoders only if internal/decoder/number.go validNumber accepts them;
+   that function, as translated, returns for EVERY byte string whether it is an RFC 8259 number *)
+Theorem C05_number_recogniser_is_rfc : forall s, run_scanner dec_validNumber_prog s = Returned (json_number s).
+Proof.
+  intro s. assert (E : dec_validNumber_prog = vn_prog) by reflexivity. rewrite E, vn_prog_is_valid_number, valid_number_spec. reflexivity.
+Qed.
+Print Assumptions C05_number_recogniser_is_rfc.
